@@ -61,7 +61,7 @@ CLAIMED = {
     note='Trusted: Coq kernel, vm_compute, harness (function interpreter, canonical form), jaxcompat, JAX tracing / lax control flow / jit cache. NOT proved: that the protocol run completes '
          'whenever the eager run does (fuel sufficiency of the model\'s flatten) and that JAX evaluates the traced function like Python; decided per run. Loops are modelled as one protocol run '
          'around the k-fold body. cached_partial: value updates, and exactly-one-structural-edit cases that must raise; graphs without array attributes (known findings F16 stale clone, F20 '
-         'array attributes); F21 (aliased cached arguments, KeyError) found by this check and fixed. pmap / shard_map / custom_vjp / eval_shape not run. No axioms.',
+         'array attributes); F21 (aliased cached arguments, KeyError) and F35 (nnx.jit dropped edits of Variable metadata) found by this check and fixed. Edits of Variable metadata, long lists / digit-keyed dicts and loop bodies that change which object an attribute holds are oracle families (lifted vs eager on the real code), not in the model's function language. pmap / shard_map / custom_vjp / eval_shape not run. No axioms.',
     technique='Coq proof (simulation between the caller\'s heap and the inner copy by induction over the function body; joint invariant of flatten and placed unflatten by fuel induction; '
               'invariance of flatten under heap isomorphism) + per-run model-vs-implementation correspondence by vm_compute',
     ref='DESIGN.md section 5, C04'),
@@ -75,8 +75,8 @@ CLAIMED = {
          'and automatic names) and nn.cond / nn.switch / nn.while_loop statements, init + 1-3 applies with changing mutable filters, static attributes and variable structure; each lifted '
          'run is compared in Coq with Model/Linen.v on the plain equivalent (transformed class names, control flow resolved) and, on the real code, with the program run as plain Python; flax.core.lift.cond / switch / while_loop on real Scopes (flax.core.apply) with random filters, mutability and statement-language bodies, well-formed and not, compared with Model/LiftCtl.v (result, updated collections, whether it raises) and with plain Python control flow.',
     note='Trusted: Coq kernel, vm_compute, harness (plain_equivalent desugaring), jaxcompat, jax.jit / checkpoint / lax control flow. NOT proved: that jax.jit / jax.checkpoint / lax control flow evaluate the traced function like Python '
-         '(needs a semantics of tracing: the model states what tracing makes visible - all branches run, condition and body run once - and the correspondence ties that to the code); rng handling of the control-flow lifts (make_loop_rngs) is not modelled. Keys drawn inside a jitted child are not compared (nn.jit forks RNGs: C09). Branch bodies only set declared variables and keep '
-         'shapes; every branch writes the same variables; trip counts >= 1. named_call, static/donate argnums, custom map_variables functions not covered. No axioms.',
+         '(needs a semantics of tracing: the model states what tracing makes visible - all branches run, condition and body run once - and the correspondence ties that to the code); rng handling of the control-flow lifts (make_loop_rngs) is not modelled. Keys drawn inside a jitted child are not compared (nn.jit forks RNGs: C09). In the module-program families branch bodies only set declared variables and keep '
+         'shapes, every branch writes the same variables and trip counts are >= 1; the functional-core family (Model/LiftCtl.v) also runs branches / bodies that differ in structure, write immutable collections, read missing variables and loops with zero trips. named_call, static/donate argnums, custom map_variables functions not covered. No axioms.',
     technique='Coq proof (filter-partition lemmas over lift.pack; sub-tree simulation and path frame over the Linen interpreter; loop simulation lifted while = Python loop by induction on the trip count) + per-run model-vs-implementation correspondence by vm_compute + lifted-vs-plain oracle on the real code',
     ref='DESIGN.md section 5, C05'),
   'C06': dict(
@@ -255,7 +255,7 @@ CLAIMED = {
          'position in [-(r+1), r] the names have one entry per dimension with the partition name exactly where the array gained its axis; remove_axis inverts add_axis '
          '(both directions); short name tuples are padded; logical_to_mesh never uses a mesh axis twice and later rules never override earlier assignments; NNX transform_metadata with a StateAxes (Model/StateAxesMeta.v): under nnx.vmap (one substate per filter) and nnx.scan (only the vectorized substates are kept) every substate whose filter has an integer axis gets the partition name at that axis and every other one is left alone, wherever the broadcast / carry filters stand (the pairing before the fix F34 is refuted by example). Tied to /repo per '
          'run: every (rank<=4, axis, name-tuple shape) enumerated through Partitioned and nnx.spmd, nested nn.scan/nn.vmap/nnx.scan/nnx.vmap levels, 1500+ rule lists, StateAxes with the filters in every order under nnx.vmap / nnx.scan, nn.add_metadata_axis against nn.vmap.',
-    note='Trusted: Coq kernel, vm_compute, harness, jaxcompat. Modelled not verified: where jax stacks the mapped axis. F4 (negative axes) fixed in /repo; the old arithmetic '
+    note='Trusted: Coq kernel, vm_compute, harness, jaxcompat. Modelled not verified: where jax stacks the mapped axis. F4 (negative axes) and F34 (nnx.scan StateAxes with a broadcast / carry filter before the integer filter, refuted as C19_stateaxes_scan_old_refuted) fixed in /repo; the old arithmetic '
          'is refuted by theorem C19_negative_axis_old_refuted. No axioms.',
     technique='Coq proof (list/Z arithmetic with lia, invariants over the rule fold) + per-run model-vs-implementation correspondence by vm_compute',
     ref='DESIGN.md section 5, C19'),
@@ -274,7 +274,7 @@ CLAIMED = {
 }
 NOTE_UPDATES = [
   ("Sharding metadata boxes (Partitioned/NNXMeta) are not generated.", "Sharding metadata (Partitioned / LogicallyPartitioned boxes with names, rules and an explicit mesh) through ToNNX and back is checked by oracle only (F32 found there and fixed)."),
-  ("split_rngs patterns, in_axes prefixes over nested containers, pmap not covered.", "split_rngs + vmap call histories and shared Variables under two DiffState filters are checked by oracle only (F30 found there and fixed); in_axes prefixes over nested containers, pmap not covered."),
+  ("split_rngs patterns, in_axes prefixes over nested containers, pmap not covered.", "split_rngs + vmap call histories are checked by oracle only; shared Variables under two DiffState filters, bare Variables and tied weights under path-based StateAxes are also rows of Model/Alias.v (F30 found there and fixed); a layout probe (position-weighted sums inside scan bodies) ties the moveaxis arithmetic to the Python loop; in_axes prefixes over nested containers, pmap not covered."),
   ("Not in the program grammar: setup-style modules, bind/unbind, lists of submodules, share_scope.", "Not in the program grammar: setup-style modules, lists of submodules, share_scope; bind / unbind and module instances shared between parents are checked by an oracle family on instance graphs, not by the model."),
   ("in_axes/out_axes prefix trees over containers not generated.", "In(axis) / Out(axis) markers and bound sub-modules passed through dataclass fields are checked by oracle only; in_axes/out_axes prefix trees over containers not generated."),
   ("Keys drawn inside a jitted child are not compared (nn.jit forks RNGs: C09).", "Keys drawn inside a jitted child are not compared (nn.jit forks RNGs: C09). Lifted helper methods over setup-defined sub-modules (counters 1-3 levels down) and nn.jit helper methods are oracle families, not in the model's grammar."),
